@@ -133,9 +133,9 @@ def lean_axioms(module, theorems, timeout=1800):
     res = {}
     import re
     # "'X' depends on axioms: [a, b]" or "'X' does not depend on any axioms"
-    for m in re.finditer(r"'([^']+)' depends on axioms: \[([^\]]*)\]", out, re.S):
+    for m in re.finditer(r"^'(\S+)' depends on axioms: \[([^\]]*)\]", out, re.S | re.M):
         res[m.group(1)] = set(a.strip() for a in m.group(2).replace('\n', ' ').split(',') if a.strip())
-    for m in re.finditer(r"'([^']+)' does not depend on any axioms", out):
+    for m in re.finditer(r"^'(\S+)' does not depend on any axioms", out, re.M):
         res[m.group(1)] = set()
     missing = [t for t in theorems if t not in res]
     if missing or p.returncode != 0:
@@ -292,7 +292,16 @@ def solve_model(m, solver='auto'):
             m.solve(display=False)
         else:
             m.solve(solver, display=False)
-    return m.get()
+    try:
+        return m.get()
+    except RuntimeError as e:
+        # "no solution" because the solver gave up (numerical trouble, iteration limit, inaccurate termination) says
+        # nothing about the model: such cases are skipped, never compared as if they were infeasible
+        msg = str(e).lower()
+        if any(k in msg for k in ('numerical', 'iteration', 'close to', 'inaccurate', 'suboptimal', 'status: 12', 'status: 13',
+                                  'status: 1\n', 'status: 4\n')) or msg.rstrip().endswith(('scipy solution status: 1', 'scipy solution status: 4')):
+            raise SkipCase('solver gave up: ' + str(e)[:120])
+        raise
 
 
 def run_difftest(ctx, script, n, component, args=None):
